@@ -132,6 +132,14 @@ func init() {
 			}
 			return ""
 		}
+		if cs.Kind == "reach-list" {
+			l := strings.Split(cs.A, "\x00")
+			r := Sat(cs.B, l)
+			if r.Panic == "" && !r.IsErr && r.Ok != cs.Want {
+				return fmt.Sprintf("Satisfies(%q, %q) = %v, natural version order says %v", cs.B, l, r.Ok, cs.Want)
+			}
+			return ""
+		}
 		msg, _ := c11Reach(cs.A, cs.B, cs.Want)
 		return msg
 	}
@@ -231,6 +239,27 @@ func c11Run(c *Ctx) {
 						if msg != "" {
 							c.Report(Violation{Kind: "c11.case", Class: "reach", Key: "reach:" + a + "->" + b, Msg: msg, Size: len(a) + len(b),
 								Case: mustJSON(c11Case{Kind: "reach", A: a, B: b, Want: want, Family: f.Index})})
+						}
+						// the same question with x+ inside a longer list next to plain x and entries that
+						// sort before and after it (the allowed list is sorted and de-duplicated internally)
+						if a == x+"+" && b == y {
+							for _, l := range [][]string{{x, a, "0BSD", "zlib-acknowledgement"}, {"zlib-acknowledgement", a, x}, {a, x, "0BSD", x}} {
+								r := Sat(b, l)
+								c.Inc("states")
+								c.Inc("transitions")
+								c.Inc("evaluations")
+								if r.Panic != "" || r.IsErr {
+									c.Inc("skipped_error_or_panic")
+									continue
+								}
+								c.Inc("traces")
+								lw := want || cv == 0
+								if r.Ok != lw {
+									c.Report(Violation{Kind: "c11.case", Class: "reach-in-list", Key: "reach-list:" + strings.Join(l, ",") + "->" + b, Size: len(a) + len(b) + 10,
+										Msg:  fmt.Sprintf("Satisfies(%q, %q) = %v, natural version order says %v", b, l, r.Ok, lw),
+										Case: mustJSON(c11Case{Kind: "reach-list", A: strings.Join(l, "\x00"), B: b, Want: lw, Family: f.Index})})
+								}
+							}
 						}
 					}
 				}
